@@ -457,6 +457,7 @@ func TestVerifC03(t *testing.T) {
 
 	env := pmmvNewEnv()
 	defer env.close()
+	env.watchdog(run)
 	maxFrames := run.N(2500, 20000)
 	totOK, totDrain, totRej, totErr := 0, 0, 0, 0
 
@@ -494,7 +495,7 @@ func TestVerifC03(t *testing.T) {
 		}
 	}
 
-	run.Cases(run.N(1000, 50000), func(c *vlib.Case) {
+	run.Cases(run.N(1000, 150000), func(c *vlib.Case) {
 		r := c.R.Fork(0xC03)
 		mode := "normal"
 		switch k := r.Intn(20); {
